@@ -1,10 +1,10 @@
 package main
 
 import (
-	"reflect"
 	"fmt"
 	"math/big"
 	"math/rand"
+	"reflect"
 	"strconv"
 
 	"github.com/rkosegi/yaml-toolkit/dom"
